@@ -38,22 +38,23 @@ def register(reg):
     sig = ["int", "int", "real", "real", "real", "real", "int"]
     reg.spec_function("HP1", sig, "real")
     reg.spec_function("H1", sig, "real")
+    # (c0 >= 1: with no RAM slot the lower level is infeasible, HP0(l, 0) is not a number)
     Q = "forall_int(lambda l, m, c0: forall_real(lambda uf, ub, wd, rd: "
     reg.spec_axioms("H1", [
-        ("H1.no_step", Q + "H1(0, m, %s) == ub))" % A1),
-        ("H1.no_disk_slot", Q + "implies(l >= 1, H1(l, 0, %s) == HP0(l, c0, uf, ub))))" % A1),
-        ("H1.min", Q + "implies(l >= 1 and m >= 1, H1(l, m, %s) == min(HP0(l, c0, uf, ub), wd + HP1(l, m, %s)))))"
-         % (A1, A1)),
+        ("H1.no_step", Q + "implies(m >= 0 and c0 >= 1, H1(0, m, %s) == ub)))" % A1),
+        ("H1.no_disk_slot", Q + "implies(l >= 1 and c0 >= 1, H1(l, 0, %s) == HP0(l, c0, uf, ub))))" % A1),
+        ("H1.min", Q + "implies(l >= 1 and m >= 1 and c0 >= 1, H1(l, m, %s) == "
+                       "min(HP0(l, c0, uf, ub), wd + HP1(l, m, %s)))))" % (A1, A1)),
     ])
     reg.spec_axioms("HP1", [
-        ("HP1.no_step", Q + "HP1(0, m, %s) == ub))" % A1),
-        ("HP1.lower_level", Q + "implies(l >= 1 and m >= 1, HP1(l, m, %s) <= HP0(l, c0, uf, ub))))" % A1),
-        ("HP1.attained", Q + "implies(l >= 1 and m >= 1, HP1(l, m, %s) == HP0(l, c0, uf, ub) or "
+        ("HP1.no_step", Q + "implies(m >= 0 and c0 >= 1, HP1(0, m, %s) == ub)))" % A1),
+        ("HP1.lower_level", Q + "implies(l >= 1 and m >= 1 and c0 >= 1, HP1(l, m, %s) <= HP0(l, c0, uf, ub))))" % A1),
+        ("HP1.attained", Q + "implies(l >= 1 and m >= 1 and c0 >= 1, HP1(l, m, %s) == HP0(l, c0, uf, ub) or "
                              "exists(0, l - 1, lambda q: HP1(l, m, %s) == (q + 1) * uf + "
                              "H1(l - q - 1, m - 1, %s) + rd + HP1(q, m, %s)))))" % (A1, A1, A1, A1)),
     ])
     reg.axiom_schema("HP1", "HP1.upper", ["m", "p", "q", "c0"], ["uf", "ub", "wd", "rd"],
-                     "implies(m >= 1 and p >= 1 and q >= 0, HP1(p + q + 1, m, %s) <= "
+                     "implies(m >= 1 and p >= 1 and q >= 0 and c0 >= 1, HP1(p + q + 1, m, %s) <= "
                      "(q + 1) * uf + H1(p, m - 1, %s) + rd + HP1(q, m, %s))" % (A1, A1, A1))
 
     # ---------------------------------------------------------------- invariants
@@ -79,7 +80,9 @@ def register(reg):
         return ("(opt[1][%(y)s][%(x)s] == H1(%(y)s, %(x)s, %(a)s) and not entry_is_inf(opt[1], %(y)s, %(x)s))"
                 % {"y": y, "x": x, "a": A1})
 
-    SHAPE = ("rows(opt[0]) == lmax + 1 and rows(optp[0]) == lmax + 1 and rows(opt[1]) == lmax + 1 and "
+    # entries that are never filled keep float('inf') (hrevolve_recurse compares against one of them)
+    UNFILLED = "forall(2, lmax + 1, lambda y: entry_is_inf(optp[1], y, 0))"
+    SHAPE = (UNFILLED + " and rows(opt[0]) == lmax + 1 and rows(optp[0]) == lmax + 1 and rows(opt[1]) == lmax + 1 and "
              "rows(optp[1]) == lmax + 1 and cols(opt[0]) == c0 + 1 and cols(optp[0]) == c0 + 1 and "
              "cols(opt[1]) == c1 + 1 and cols(optp[1]) == c1 + 1")
     # rows 0 and 1 ("borders") of one level; they are never written again
@@ -218,3 +221,101 @@ def register(reg):
                 ("entry_is_the_optimum", sub("opt[1][l][m] == H1(l, m, %s)" % A1))],
         },
         loops=loops))
+
+    # ---------------------------------------------------------------- hrevolve_aux / hrevolve_recurse
+    import re
+
+    def T(e):
+        """the same table predicate over the parameters hoptp / hopt with lmax = rows - 1"""
+        e = re.sub(r"\boptp\b", "hoptp", e)
+        e = re.sub(r"\bopt\b", "hopt", e)
+        e = re.sub(r"\blmax\b", "(rows(hopt[0]) - 1)", e)
+        e = re.sub(r"\buf\b", "params['uf']", e)
+        e = re.sub(r"\bub\b", "params['ub']", e)
+        return sub(e)
+
+    ENTRIES = [
+        ("shape", SHAPE),
+        ("level_0", "forall(1, c0 + 1, lambda x: forall(0, lmax + 1, lambda y: %s))" % cell0("y", "x")),
+        ("level_1", "forall(1, c1 + 1, lambda x: forall(0, lmax + 1, lambda y: %s))" % cell1("y", "x")),
+        ("level_1_no_slot", "forall(0, lmax + 1, lambda y: %s)" % cell1_opt_only("y", "0")),
+    ]
+    TABLES = [("tables_if_given:" + l, "implies(hoptp is not None and hopt is not None, %s)" % T(e))
+              for l, e in ENTRIES] + \
+             [("tables_if_given:large_enough", "implies(hoptp is not None and hopt is not None, rows(hopt[0]) >= l + 1)")]
+    PARAMS = ("dict", {"uf": "real", "ub": "real", "up": "int", "wd": ("tuple", ["real", "real"]),
+                       "rd": ("tuple", ["real", "real"]), "mx": "none", "one_read_disk": "bool", "fast": "bool",
+                       "concat": "int", "print_table": "str"})
+    SIG = [("l", "int"), ("K", "int"), ("cmem", "int"), ("cvect", ("tuple", ["int", "int"])),
+           ("wvect", ("tuple", ["real", "real"])), ("rvect", ("tuple", ["real", "real"])),
+           ("hoptp", ("opt", ("tuple", ["grid", "grid"]))), ("hopt", ("opt", ("tuple", ["grid", "grid"]))),
+           ("params", PARAMS)]
+    COMMON = [
+        ("domain", "l >= 0 and 0 <= K and K <= 1 and 0 <= cmem and cmem <= cvect[K]"),
+        ("units", "cvect[0] >= 1 and cvect[1] >= 0"),
+        ("ram_transfers_are_free", "wvect[0] == 0 and rvect[0] == 0"),
+        ("disk_costs_not_negative", "wvect[1] >= 0 and rvect[1] >= 0"),
+        ("costs_are_the_parameters", "params['wd'][0] == wvect[0] and params['wd'][1] == wvect[1] and "
+                                     "params['rd'][0] == rvect[0] and params['rd'][1] == rvect[1]"),
+    ] + TABLES
+    PA = "params['uf'], params['ub'], wvect[1], rvect[1], cvect[0]"
+    P0 = "params['uf'], params['ub']"
+    reg.add(Contract(
+        "seq.hrevolve.hrevolve_aux", params=SIG, kwargs_param="params",
+        defaults={"hoptp": "None", "hopt": "None"},
+        requires=COMMON, raises=[("KeyError", "cmem == 0")],
+        returns=("obj", "Sequence"),
+        ensures=[("makespan_level_0", "implies(K == 0, result.makespan == HP0(l, cmem, %s) + (l + 1) * params['uf'])" % P0),
+                 ("makespan_level_1", "implies(K == 1, result.makespan == HP1(l, cmem, %s) + (l + 1) * params['uf'])" % PA)],
+        frame=[], props=("C07",), exc_props={"KeyError": ("C07", "C17"), "*": ("C07", "C17")},
+        locals={"aux": ("obj", "SeqItem")},
+        hints={
+            "list_mem[1]": [
+                ("every_list_entry_is_a_candidate",
+                 "forall(0, l - 1, lambda q: list_mem[q] == (q + 1) * params['uf'] + H1(l - q - 1, cmem - 1, %s) + "
+                 "rvect[1] + HP1(q, cmem, %s))" % (PA, PA))],
+            "jmin[1]": [
+                ("chosen_split_is_a_list_entry",
+                 "list_mem[jmin - 1] == jmin * params['uf'] + H1(l - jmin, cmem - 1, %s) + rvect[1] + "
+                 "HP1(jmin - 1, cmem, %s)" % (PA, PA)),
+                ("use", "HP1.upper", ["cmem", "l - jmin", "jmin - 1", "cvect[0]", "params['uf']", "params['ub']",
+                                      "wvect[1]", "rvect[1]"]),
+                ("split_not_below_optimum", "list_mem[jmin - 1] >= HP1(l, cmem, %s)" % PA),
+                ("split_beats_lower_level", "list_mem[jmin - 1] < HP0(l, cvect[0], %s)" % P0),
+                ("split_not_above_optimum", "list_mem[jmin - 1] <= HP1(l, cmem, %s)" % PA)],
+        },
+        loops=[
+            LoopSpec("for index in range(l - 1, -1, -1)", [
+                ("index", "-1 <= it_index and it_index <= l - 1"),
+                ("domain", "l >= 2 and K == 0 and cmem == 1"),
+                ("makespan_so_far",
+                 "2 * sequence.makespan == 2 * (l - 1 - it_index) * params['ub'] + "
+                 "(l - 1 - it_index) * (l + it_index + 4) * params['uf']")],
+                decreases="it_index + 1"),
+            # walks down to the last operation of the sequence: only `type` is read (termination of
+            # this walk over nested sequences is not proved)
+            LoopSpec("aux.type == 'Function'", [("makespan_untouched", "True")]),
+        ]))
+    reg.add(Contract(
+        "seq.hrevolve.hrevolve_recurse", params=SIG, kwargs_param="params",
+        defaults={"hoptp": "None", "hopt": "None"},
+        requires=COMMON, raises=[("KeyError", "l >= 1 and K == 0 and cmem == 0")],
+        returns=("obj", "Sequence"),
+        ensures=[("makespan_level_0", "implies(K == 0, result.makespan == HP0(l, cmem, %s) + (l + 1) * params['uf'])" % P0),
+                 ("makespan_level_1", "implies(K == 1, result.makespan == H1(l, cmem, %s) + (l + 1) * params['uf'])" % PA)],
+        frame=[], props=("C07",), exc_props={"KeyError": ("C07", "C17"), "*": ("C07", "C17")}))
+
+    # F41: the entry point used by the HRevolve class
+    reg.add(Contract(
+        "seq.hrevolve.hrevolve",
+        params=[("l", "int"), ("cvect", ("tuple", ["int", "int"])), ("wvect", ("tuple", ["real", "real"])),
+                ("rvect", ("tuple", ["real", "real"])), ("fwd_cost", "real"), ("bwd_cost", "real")],
+        callees={"revolver_parameters": "seq.utils.revolver_parameters#vectors"},
+        requires=[("domain", "l >= 0 and cvect[0] >= 1 and cvect[1] >= 0"),
+                  ("ram_transfers_are_free", "wvect[0] == 0 and rvect[0] == 0"),
+                  ("disk_costs_not_negative", "wvect[1] >= 0 and rvect[1] >= 0")],
+        returns=("obj", "Sequence"),
+        ensures=[("makespan_is_the_two_level_optimum",
+                  "result.makespan == H1(l, cvect[1], fwd_cost, bwd_cost, wvect[1], rvect[1], cvect[0]) + "
+                  "(l + 1) * fwd_cost")],
+        frame=[], props=("C07",), exc_props={"*": ("C07", "C17")}))
